@@ -7,6 +7,9 @@ Decided:
            the empty-block wipe uses the same unit, the empty block header states block size 1 << 7
   EFFECTS  every opcode has a handler whose reachable effect calls contain the required kinds, and the no-op opcodes
            reach no mutating effect at all ("nothing else under the directory changes")
+  MUSTDO   the effects of an arm / of the empty-block writer lie on every successful path (must-pass-through after
+           pruning the error-propagation blocks); every wipe iteration writes; AddFile reads a block only under the
+           `collected < file_size` guard
   PLATFORM both path builders name the platform of the last TargetInfo (the only assignment to the variable lies in the
            TargetInfo arm); file-name arguments are (main id, sub id, file id) of the command being applied
   PROV     seek/write/wipe operands of every arm derive from that command's own fields (offset, data, counts);
@@ -85,6 +88,84 @@ def effects_in_region(prog, body, blocks, cache):
     return out
 
 
+# effects every *successful* run of an arm / helper performs (must-pass-through on the success paths); name -> count
+UNAVOIDABLE = {
+    ("Sqpk", "AddData", None): {"create_dir_all": 1, "open": 1, "seek": 1, "write_all": 1, "wipe": 1},
+    ("Sqpk", "DeleteData", None): {"open": 1, "empty_block": 1},
+    ("Sqpk", "ExpandData", None): {"create_dir_all": 1, "open": 1, "empty_block": 1},
+    ("Sqpk", "HeaderUpdate", None): {"create_dir_all": 1, "open": 1, "write_all": 1},
+    ("Sqpk", "FileOperation", "AddFile"): {"create_dir_all": 1, "seek": 2, "open": 1},
+    ("Sqpk", "FileOperation", "MakeDirTree"): {"create_dir_all": 1},
+}
+UNAVOIDABLE_FN = {"patch::write_empty_file_block_at": {"wipe": 1, "seek": 2, "write_all": 5}}
+MUST_KINDS = dict(EFFECTS, wipe=("patch::wipe",), empty_block=("patch::write_empty_file_block_at",))
+
+
+def must_kind(name):
+    for k in ("wipe", "empty_block"):
+        if name in MUST_KINDS[k]:
+            return k
+    return effect_kind(name)
+
+
+def error_blocks(body):
+    """Blocks on error-propagation paths: a `?` residual conversion or the construction of a Result::Err."""
+    out = set()
+    for bi, blk in enumerate(body.blocks):
+        if blk["cleanup"]:
+            out.add(bi)
+            continue
+        t = blk["t"]
+        if t["k"] == "unreachable":
+            out.add(bi)
+        if t["k"] == "call" and "from_residual" in (t.get("res") or ""):
+            out.add(bi)
+        for st in blk["s"]:
+            rv = st.get("rv") or {}
+            if rv.get("k") == "agg" and (rv.get("adt") or "").endswith("result::Result") and str(rv.get("variant")) in ("1", "Err"):
+                out.add(bi)
+    return out
+
+
+def unavoidable_calls(body, entry, region=None):
+    """Calls that lie on every success path from `entry` to an exit (a `return`, or an edge leaving `region`):
+    the error-propagation blocks are pruned, then a call block is unavoidable iff no exit is reachable without it."""
+    from collections import Counter
+
+    bad = error_blocks(body)
+    nodes = {b for b in (region if region is not None else body.reachable()) if b not in bad}
+
+    def exits_reachable(skip):
+        if entry == skip or entry not in nodes:
+            return False
+        seen, todo = {entry}, [entry]
+        while todo:
+            b = todo.pop()
+            t = body.blocks[b]["t"]
+            if t["k"] == "return":
+                return True
+            for s_ in body.succ(b):
+                if s_ in bad or s_ == skip:
+                    continue
+                if region is not None and s_ not in region:
+                    return True
+                if s_ in nodes and s_ not in seen:
+                    seen.add(s_)
+                    todo.append(s_)
+        return False
+
+    if not exits_reachable(None):
+        return None
+    out = Counter()
+    for b in sorted(nodes):
+        t = body.blocks[b]["t"]
+        if t["k"] == "call":
+            k = must_kind(t.get("res") or "")
+            if k and not exits_reachable(b):
+                out[k] += 1
+    return out
+
+
 def main_switch(body, ty):
     sw = D.discr_switches(body, ty)
     if not sw:
@@ -99,6 +180,7 @@ def run(ctx):
     ctx.decided("<< 7 block units on the four block fields, the wipe length and the empty-block header (SHIFT)")
     ctx.decided("the patch block reader consumes deflated and raw blocks up to their 128-byte aligned end (BLOCK)")
     ctx.decided("required effect kinds per opcode; no mutating effect in the no-op opcodes (EFFECTS)")
+    ctx.decided("the effects of each arm are unavoidable on its successful paths; block reads of AddFile are guarded by the size test (MUSTDO)")
     ctx.decided("target platform comes from the last TargetInfo; file-name arguments are the command's own ids (PLATFORM)")
     ctx.decided("seek/write/wipe operands derive from the command's own fields; conditional seek/truncate placement (PROV)")
     ctx.not_decided("tree equality with the reference semantics; offsets and lengths actually written; chains of patches; ADIR/DELD effects")
@@ -248,6 +330,76 @@ def run(ctx):
         if reg:
             got = effects_in_region(prog, ab, reg, cache) & forbidden
             ctx.ob("EFFECTS", f"Sqpk|FileOperation|{op}|only", not got, f"{op} reaches effects outside its meaning: {sorted(got)}", ab.file, ab.line, trivial=True)
+
+    # ---- MUSTDO: the effects of an arm are performed on every successful path through it, not merely reachable
+    for key, want in UNAVOIDABLE.items():
+        reg = regions.get(key)
+        name = "|".join(str(k) for k in key if k)
+        if reg is None:
+            continue
+        tgt = min(reg, key=lambda b_: (not all(ab.dominates(b_, x) for x in reg), b_))
+        got = unavoidable_calls(ab, tgt, reg)
+        if got is None:
+            ctx.fail_closed("MUSTDO", f"{name}: no success path found through the arm")
+            continue
+        short = {k: (got.get(k, 0), n_) for k, n_ in want.items() if got.get(k, 0) < n_}
+        ctx.ob("MUSTDO", name, not short, f"{name}: effects on every successful path {dict(got)}; required at least {want}" + (f"; AVOIDABLE {short}" if short else ""), ab.file, ab.line, sample=(key[1] == "AddData"))
+    for fn, want in UNAVOIDABLE_FN.items():
+        fb = prog.body(fn)
+        if not fb:
+            ctx.fail_closed("MUSTDO", f"{fn} not found")
+            continue
+        got = unavoidable_calls(fb, 0)
+        if got is None:
+            ctx.fail_closed("MUSTDO", f"{fn}: no success path found")
+            continue
+        short = {k: (got.get(k, 0), n_) for k, n_ in want.items() if got.get(k, 0) < n_}
+        ctx.ob("MUSTDO", fn, not short, f"{fn}: effects on every successful path {dict(got)}; required at least {want}" + (f"; AVOIDABLE {short}" if short else ""), fb.file, fb.line)
+    wb = prog.body("patch::wipe")
+    if not wb:
+        ctx.fail_closed("MUSTDO", "patch::wipe not found")
+    else:
+        # every cycle of the wipe loop writes: no loop path from the head back to the head avoids write_all
+        from ..sym import Explorer as _Ex
+
+        loops = _Ex(wb).loops()
+        okw = bool(loops)
+        for h, (blocks, _as) in loops.items():
+            wr = {b_ for b_ in blocks if wb.blocks[b_]["t"]["k"] == "call" and effect_kind(wb.blocks[b_]["t"].get("res") or "") == "write_all"}
+            seen, todo = set(), [s_ for s_ in wb.succ(h) if s_ in blocks and s_ not in wr]
+            back = False
+            while todo:
+                b_ = todo.pop()
+                if b_ == h:
+                    back = True
+                    break
+                if b_ in seen:
+                    continue
+                seen.add(b_)
+                todo += [s_ for s_ in wb.succ(b_) if s_ in blocks and s_ not in wr]
+            okw = okw and bool(wr) and not back
+        ctx.ob("MUSTDO", "patch::wipe|every-iteration-writes", okw, "every iteration of the wipe loop passes through write_all (the remaining length only shrinks by bytes actually written)", wb.file, wb.line)
+    # AddFile: a block is read from the patch only while the collected data is shorter than the stated file size
+    # (a zero-length file carries no block)
+    reg = regions.get(("Sqpk", "FileOperation", "AddFile"))
+    if reg:
+        ixa = index_of(ab)
+        reads = [bi for bi in reg if ab.blocks[bi]["t"]["k"] == "call" and (ab.blocks[bi]["t"].get("res") or "").endswith("read_data_block_patch")]
+        guarded = []
+        for rb_ in reads:
+            g = False
+            for sb_ in reg:
+                t_ = ab.blocks[sb_]["t"]
+                if t_["k"] != "switch" or not ab.dominates(sb_, rb_):
+                    continue
+                d_ = derive(ixa, t_["a"])
+                if "file_size" in d_.names and any(c_.split("::")[-1] == "len" for c_ in d_.calls) and (d_.ops & {"Lt", "Gt", "Le", "Ge", "Ne"}):
+                    # the read lies on one side of the comparison only
+                    sides = [tg for _v, tg in t_["arms"]] + ([t_["else"]] if t_.get("else") is not None and t_.get("else", -1) >= 0 else [])
+                    if sum(1 for tg in set(sides) if ab.dominates(tg, rb_)) == 1:
+                        g = True
+            guarded.append(g)
+        ctx.ob("MUSTDO", "AddFile|block-read-guarded", bool(reads) and all(guarded), f"{len(reads)} read_data_block_patch call(s) in the AddFile arm, guarded by the `collected length < file_size` test: {guarded}", ab.file, ab.line)
 
     # ---- PLATFORM
     tloc = None
